@@ -511,12 +511,22 @@ func helpersOfAllowed(u *Universe, rels []string, allowed func(name string) bool
 	out := map[string]bool{}
 	ok := func(name string) bool { return allowed(name) || out[name] }
 	usedAsValue := map[*ssa.Function]bool{}
+	valueIn := map[*ssa.Function][]*ssa.Function{}
 	for _, rel := range rels {
 		for _, g := range u.srcFuncs(rel) {
 			for _, in := range instrsOf(g) {
 				for _, op := range in.Operands(nil) {
 					if f, isF := (*op).(*ssa.Function); isF {
 						if call, isCall := in.(ssa.CallInstruction); !isCall || call.Common().Value != ssa.Value(f) {
+							// kept in a local table of a permitted function and called from there: still on its behalf
+							root := g
+							for root.Parent() != nil {
+								root = root.Parent()
+							}
+							if allowed(u.fname(root)) {
+								valueIn[f] = append(valueIn[f], root)
+								continue
+							}
 							usedAsValue[f] = true
 						}
 					}
@@ -533,7 +543,7 @@ func helpersOfAllowed(u *Universe, rels []string, allowed func(name string) bool
 					continue
 				}
 				sites := u.staticCallers(h)
-				all := len(sites) > 0
+				all := len(sites) > 0 || len(valueIn[h]) > 0
 				for _, cs := range sites {
 					if _, plain := cs.(*ssa.Call); !plain {
 						all = false
@@ -706,19 +716,33 @@ func flowsFromIP(u *Universe, v ssa.Value, depth int, pred func(ssa.Value) bool)
 				}
 			case *ssa.Call:
 				callee := y.Call.StaticCallee()
-				if callee == nil || callee.Blocks == nil || callee.Pkg == nil || !strings.HasPrefix(callee.Pkg.Pkg.Path(), modPath) {
-					return false
+				var callees []*ssa.Function
+				if callee != nil {
+					callees = []*ssa.Function{callee}
+				} else if !y.Call.IsInvoke() {
+					// a call through a function value: the functions of the module with that signature that the calling
+					// function refers to as values (a local dispatch table)
+					for _, h := range family(y.Parent(), 0)[1:] {
+						if h.Parent() == nil && types.Identical(h.Signature, y.Call.Signature()) {
+							callees = append(callees, h)
+						}
+					}
 				}
 				seen[x] = true
-				for _, b := range callee.Blocks {
-					ret, ok := b.Instrs[len(b.Instrs)-1].(*ssa.Return)
-					if !ok {
+				for _, callee := range callees {
+					if callee.Blocks == nil || callee.Pkg == nil || !strings.HasPrefix(callee.Pkg.Pkg.Path(), modPath) {
 						continue
 					}
-					for j := range ret.Results {
-						if types.Identical(ret.Results[j].Type(), v.Type()) && walk(retValue(ret, j), d-1) {
-							hit = true
-							return true
+					for _, b := range callee.Blocks {
+						ret, ok := b.Instrs[len(b.Instrs)-1].(*ssa.Return)
+						if !ok {
+							continue
+						}
+						for j := range ret.Results {
+							if types.Identical(ret.Results[j].Type(), v.Type()) && walk(retValue(ret, j), d-1) {
+								hit = true
+								return true
+							}
 						}
 					}
 				}
